@@ -44,6 +44,142 @@ def ds_tasks(tier):
   return out
 
 
+def sched_tasks(tier):
+  out = [dict(kind='ds_sched', cfg=dict(c02.BASE, q=3, end=20, s=1, start=1, block_size=4, graft='SGD'), shape=[2, 2])]
+  if tier == 'thorough':
+    out += [dict(kind='ds_sched', cfg=dict(c02.BASE, q=10, end=30, s=2, start=0, block_size=4, graft='RMSPROP'), shape=[2, 2]),
+            dict(kind='ds_sched', cfg=dict(c02.BASE, q=3, end=20, s=1, start=1, block_size=2, graft='SGD'), shape=[4])]
+  return out
+
+
+def sched_pieces(q0, end, limit=4000):
+  """the documented interval q_t = max(floor((q0 + (1 - lr(t)/lr(0)) * end) / 10) * 10, 1) for lr(t) = lr0/(1+t):
+  maximal runs [a, b] of step indices with constant q_t (b = None for the final, unbounded run)"""
+  from fractions import Fraction as Fr
+  def qt(t):
+    x = Fr(q0) + Fr(t, 1 + t) * end
+    return max((x // 10) * 10, 1)
+  final = max(((Fr(q0) + end - Fr(1, 10 ** 9)) // 10) * 10, 1)
+  pieces = []
+  a, cur = 0, qt(0)
+  for t in range(1, limit):
+    v = qt(t)
+    if v != cur:
+      pieces.append((a, t - 1, int(cur)))
+      a, cur = t, v
+    if v == final:
+      break
+  pieces.append((a, None, int(cur)))
+  return pieces
+
+
+def sched_work(task):
+  """K6: learning-rate-scheduled preconditioner interval"""
+  t0_ = time.time()
+  c = dsh.full_cfg(dict(task['cfg'], lr_schedule=True, decay_preconditioning_compute_steps=True,
+                        end_preconditioning_compute_steps=task['cfg']['end']))
+  shape = tuple(task['shape'])
+  q0, end = c['q'], task['cfg']['end']
+  tag = f"DS-scheduled|{'x'.join(map(str, shape))}|q0={q0},end={end},s={c['s']},t0={c['start']}"
+  dsh.install_root_stub()
+  opt = dsh.make_opt(c)
+  params = {'p0': jnp.zeros(shape, jnp.float32)}
+  tr, _ = dsh.trace_update(opt, params)
+  I = Interp(Ctx())
+  leaves = tr.sym_inputs()
+  g_, st_, p_ = tr.unflatten_in(leaves)
+  upd, new = tr.run(I, leaves)
+  count = st_.count.item()
+  old, nw = st_.stats['p0'], new.stats['p0']
+  P = Prover(timeout_s=40, first_s=2.0)
+  ref = DSRef(dict(c, q=1), shape, I)
+  pieces = sched_pieces(q0, end)
+  P.results.append(dict(name=f'{tag}|K6 documented interval is >= 1 on every piece {pieces}', kind='core', queries=0,
+                        status='unsat' if all(v >= 1 for _, _, v in pieces) else 'sat'))
+  P.equal(f'{tag}|K1 count+1', new.count, np.array(R.s_add(count, 1), dtype=object), [count >= 0, count <= 2 ** 31 - 2])
+  from ..solve import walk
+  out_terms = [x for leaf in flat_leaves((nw.preconditioners, nw.training_metrics)) for x in toobj(leaf).reshape(-1) if R.is_z3(x)]
+  floors = [t_ for t_ in walk(out_terms) if z3.is_app(t_) and t_.decl().kind() == z3.Z3_OP_TO_INT]
+  for (a, b, v) in pieces:
+    rng = [count >= a] + ([count <= b] if b is not None else [count <= 2 ** 31 - 2])
+    ptag = f'{tag}|steps {a}..{b if b is not None else "inf"}: interval {v}'
+    # floor resolution: a floor(...) inside the code's interval computation that is constant on this piece is
+    # replaced by its value AFTER the solver has proved lo <= arg < lo + 1 on the whole piece
+    subs = []
+    for fi, ft in enumerate(floors):
+      arg = ft.arg(0)
+      smp = z3.simplify(z3.substitute(arg, (count, z3.IntVal(a if b is None else (a + b) // 2))))
+      if not z3.is_rational_value(smp):
+        continue
+      lo = smp.as_fraction().numerator // smp.as_fraction().denominator
+      side = Prover(timeout_s=20, first_s=5.0, fresh=True)
+      rr = side.prove(f'{ptag}|K6 side: floor term {fi} equals {lo} on this piece', z3.And(arg >= lo, arg < lo + 1), rng, axioms=False, nosplit=True)
+      if rr.ok:
+        P.results.append(rr)
+        rng = rng + [ft == lo]
+        subs.append((ft, z3.IntVal(lo)))
+
+    def sb(tree):
+      """rewrite the resolved floor terms (equal to constants on this piece, proved above) and fold"""
+      def one(a_):
+        a_ = toobj(a_)
+        o = np.empty(a_.shape, dtype=object)
+        for idx in np.ndindex(a_.shape):
+          x = a_[idx]
+          o[idx] = z3.simplify(z3.substitute(x, *subs)) if (R.is_z3(x) and subs) else x
+        return o
+      return jax.tree_util.tree_map(one, tree, is_leaf=lambda x: isinstance(x, np.ndarray))
+    nwp, nwm = sb(list(nw.preconditioners)), sb(nw.training_metrics)
+    if v > 1:
+      unchanged(P, f'{ptag}|K6 preconditioners unchanged when count % {v} != 0', nwp, old.preconditioners, rng + [count % v != 0])
+      unchanged(P, f'{ptag}|K6 metrics unchanged when count % {v} != 0', nwm, old.training_metrics, rng + [count % v != 0])
+    on = rng + ([count % v == 0] if v > 1 else [])
+    for k in range(ref.nstat):
+      root, err = root_uf(nw.statistics[k], ref.exponent)
+      want = emap(lambda r_, o_: R.s_if(R.s_not(R.s_ge(err, f32(c['thr']))), r_, o_), root, old.preconditioners[k])
+      P.equal(f'{ptag}|K6 preconditioner[{k}] = gate(ROOT(new statistics)) when count % {v} == 0', nwp[k], want, on,
+              [err >= R.rlit(f32(c['thr']))])
+    if b is None or any(t_ % v == 0 for t_ in range(a, b + 1)):
+      P.reach(f'{ptag}|twin: refresh step reachable in this piece', on)
+    else:
+      P.reach(f'{ptag}|twin: piece reachable (it contains no refresh step, so only the unchanged-obligations apply)', rng)
+  res, viol = finish(P, task, tag)
+  return dict(results=res, violations=viol, errors=[], configs=1,
+              samples=[dict(kind='ds_sched', config=task['cfg'], shape=list(shape), pieces=pieces, jaxpr_eqns=tr.n_eqns)],
+              extra=dict(jaxpr_eqns_total=tr.n_eqns, eval_s=round(time.time() - t0_, 2)))
+
+
+def sched_concrete(task, seed=0):
+  """real optimizer with the scheduled interval: preconditioners must change exactly on multiples of q_t"""
+  c = dsh.full_cfg(dict(task['cfg'], lr_schedule=True, decay_preconditioning_compute_steps=True,
+                        end_preconditioning_compute_steps=task['cfg']['end']))
+  shape = tuple(task['shape'])
+  pieces = sched_pieces(c['q'], task['cfg']['end'])
+  def interval(t):
+    for a, b, v in pieces:
+      if t >= a and (b is None or t <= b):
+        return v
+  dsh.uninstall_root_stub()
+  try:
+    opt = dsh.make_opt(c)
+    rng = np.random.RandomState(seed)
+    p = {'p0': jnp.asarray(rng.randn(*shape), jnp.float32)}
+    st = opt.init(p)
+    for t in range(45):
+      g = {'p0': jnp.asarray(rng.randn(*shape), jnp.float32)}
+      u, st2 = opt.update(g, st, p)
+      v = interval(t)
+      changed = bits(st.stats['p0'].preconditioners) != bits(st2.stats['p0'].preconditioners)
+      if t % v != 0 and changed:
+        return f'step {t}: preconditioners changed although the scheduled interval is {v} and {t} % {v} != 0'
+      if t % v == 0 and not changed and t > 0:
+        return f'step {t}: preconditioners did not change although the scheduled interval is {v} and {t} % {v} == 0'
+      st = st2
+    return None
+  finally:
+    dsh.install_root_stub()
+
+
 def flat_leaves(tree):
   return jax.tree_util.tree_leaves(tree, is_leaf=lambda x: isinstance(x, np.ndarray))
 
@@ -198,6 +334,13 @@ def ds_cadence_concrete(c, shape, seed=0):
 
 
 def confirm(task):
+  if task['kind'] == 'ds_sched':
+    for seed in (0, 1):
+      what = sched_concrete(task, seed)
+      if what:
+        path = write_replay(PID, dict(property=PID, kind='ds_sched', task=task, seed=seed, observed=what))
+        return dict(what=what, replay=path)
+    return None
   if task['kind'] == 'ds':
     c = dsh.full_cfg(task['cfg'])
     shape = tuple(task['shape'])
@@ -213,7 +356,9 @@ def confirm(task):
 
 def replay(path):
   d = json.load(open(path))
-  if d['kind'] == 'ds':
+  if d['kind'] == 'ds_sched':
+    what = sched_concrete(d['task'], d['seed'])
+  elif d['kind'] == 'ds':
     what, _, _ = ds_cadence_concrete(d['config'], tuple(d['shape']), d['seed'])
   else:
     from . import c04_tf
@@ -229,6 +374,8 @@ def replay(path):
 def work(task):
   if task['kind'] == 'ds':
     return ds_work(task)
+  if task['kind'] == 'ds_sched':
+    return sched_work(task)
   from . import c04_tf
   return c04_tf.work(task)
 
@@ -239,11 +386,12 @@ def run(rep):
       'for all states and gradients, K1 counter+1, K2 statistics term-identical when count % s != 0, K3 preconditioners and '
       'metrics term-identical when count % q != 0, K4 on refresh steps the preconditioner is gate(ROOT(statistics after this '
       "step's update)), K5 updates equal the graft-momentum update before the start step and use the new preconditioners "
-      'from it on (reference model and self-composition with start=never / start=0); each unchanged-obligation has an on-step '
-      'reachability twin.')
+      'from it on (reference model and self-composition with start=never / start=0); K6 with a learning-rate-scheduled interval the '
+      'same K3/K4 hold for the documented piecewise-constant interval q_t (>= 1), piece by piece with the last piece unbounded; each '
+      'unchanged-obligation has an on-step reachability twin.')
   rep.encode('precondition.distributed_shampoo.distributed_shampoo.update_fn (+_compute_stats, _pmap_compute_preconditioners, '
              '_update_preconditioners_fn, efficient_cond, _transform_grad)', 'precondition/distributed_shampoo.py')
-  ts = ds_tasks(rep.tier)
+  ts = ds_tasks(rep.tier) + sched_tasks(rep.tier)
   try:
     from . import c04_tf
     ts += c04_tf.tasks(rep.tier)
